@@ -15,6 +15,9 @@ use std::collections::{BTreeMap, BTreeSet};
 
 pub struct C13;
 
+/// built by ./check (thorough tier) from /repo's working tree
+pub const REAL_BIN: &str = "/verif/sim/target/repo-bin/release/cargo-tauri-typegen";
+
 #[derive(Clone, Debug, Serialize, Deserialize)]
 struct Case {
     kind: String, // "sched" | "edit"
@@ -29,6 +32,10 @@ struct Case {
     flags: Vec<String>,
     // edit workload
     edit_kind: String,
+    /// also run the real `cargo-tauri-typegen` binary (a real OS process with real
+    /// entropy and clock) and compare: stub-fidelity cross-check
+    #[serde(default)]
+    real_bin: bool,
     model_after: Option<Model>,
     extras_after: Option<BTreeMap<String, String>>,
 }
@@ -331,6 +338,7 @@ impl Check for C13 {
         } else {
             (None, None)
         };
+        let real_bin = tier == Tier::Thorough && !edit_case && setup.entry == Entry::Cli && i % 16 == 0;
         serde_json::to_value(Case {
             kind: if edit_case { "edit".into() } else { "sched".into() },
             model,
@@ -342,6 +350,7 @@ impl Check for C13 {
             viz,
             flags,
             edit_kind,
+            real_bin,
             model_after,
             extras_after,
         })
@@ -409,6 +418,40 @@ impl Check for C13 {
                             "requesting the visualisation only adds its own two files",
                             format!("with: {:?} without: {:?}", with.keys().collect::<Vec<_>>(), without.keys().collect::<Vec<_>>()),
                         );
+                    }
+                }
+            }
+            if c.real_bin && co.violations.is_empty() {
+                // the same generation through the real binary, as a real OS process
+                match std::path::Path::new(REAL_BIN).exists() {
+                    false => co.harness_error = Some(format!("{} missing: run through ./check, which builds it", REAL_BIN)),
+                    true => {
+                        let mut cfg = c.cfg.clone();
+                        cfg.visualize = c.viz[0];
+                        w.write_config(&c.setup, &cfg);
+                        let _ = std::fs::remove_dir_all(w.out_dir(&c.setup));
+                        let argv = w.argv(&c.setup, &cfg, true, false);
+                        let outp = std::process::Command::new(REAL_BIN)
+                            .args(&argv[1..])
+                            .current_dir(w.cwd(&c.setup))
+                            .output();
+                        match outp {
+                            Ok(o) if o.status.success() => {
+                                let real = scen::out_files(&w, &c.setup);
+                                let n_before = co.violations.len();
+                                compare_files(&mut co, &outs[0], &real, "simulated process vs the real cargo-tauri-typegen binary (real process, real entropy, real clock)", true, true);
+                                for v in co.violations.iter_mut().skip(n_before) {
+                                    v.signature = format!("{}/real-process", v.signature);
+                                }
+                                co.count("stub_fidelity_real_binary_runs_compared", 1);
+                            }
+                            Ok(o) => co.violate(
+                                "C13/status/real-process".into(),
+                                "every run on identical input has the same outcome",
+                                format!("simulated runs ok, real binary exit {:?}: {}", o.status.code(), String::from_utf8_lossy(&o.stderr).chars().take(200).collect::<String>()),
+                            ),
+                            Err(e) => co.harness_error = Some(format!("cannot start {}: {}", REAL_BIN, e)),
+                        }
                     }
                 }
             }
